@@ -162,6 +162,7 @@ namespace c18
   // numbers (no cell lookup is done here: the two permutation lookups and calc_fcell are part of the model)
   //   D nf nc ncells nchild nfine npts  CP <coarse get_perm positions | 0>  FP <fine get_inv_perm positions | 0>
   //     PAT <row_ptr> <col_ind>                                   layout of the prolongation matrix (2-level graph)
+  //     REF <reference coordinates of the cubature points>
   //     { cmap  ncp { w C-row }  { C-row [xc..] }*npts*nchild }*ncells     coarse cells in mesh order
   //     { fmap  { w F-row [xf..] }*npts }*nfine                            fine cells in mesh order
   // ---------------------------------------------------------------------------------------------------------------
@@ -226,6 +227,10 @@ namespace c18
       o << " " << pat.used_elements();
       for(Index i(0); i < pat.used_elements(); ++i) o << " " << pat.col_ind()[i];
     }
+    // reference coordinates of the cubature points (the refined points are the child maps of these)
+    o << " REF " << (npts * dim);
+    for(int k(0); k < npts; ++k)
+      for(int d(0); d < dim; ++d) o << " " << Q(fine_cubature.get_point(k)[d]).str();
     for(Index ccell(0); ccell < ncells; ++ccell)
     {
       coarse_trafo_eval.prepare(ccell);
@@ -470,6 +475,24 @@ namespace c18
       return;
     }
     o << "BAD-OP";
+  }
+
+  // childmap <shape> <point>: the real Cubature::RefineFactoryCore applied to a one-point rule: points and weights of
+  // the refined rule = the child maps A_c of the reference cell applied to the point
+  template<typename Shape_>
+  void childmap(Cur& c, std::ostream& o)
+  {
+    typedef Cubature::Rule<Shape_, Q, Q, Tiny::Vector<Q, Shape_::dimension>> RuleType;
+    RuleType rule_in(1, "point");
+    for(int d(0); d < Shape_::dimension; ++d) rule_in.get_coord(0, d) = qtok(c);
+    rule_in.get_weight(0) = Q(1);
+    RuleType rule;
+    Cubature::RefineFactoryCore::create(rule, rule_in);
+    o << "CM " << rule.get_num_points() * Shape_::dimension;
+    for(int k(0); k < rule.get_num_points(); ++k)
+      for(int d(0); d < Shape_::dimension; ++d) o << " " << Q(rule.get_coord(k, d)).str();
+    o << " " << rule.get_num_points();
+    for(int k(0); k < rule.get_num_points(); ++k) o << " " << Q(rule.get_weight(k)).str();
   }
 
   // space tags
